@@ -234,6 +234,16 @@ SPECS["C11"] = {
     "assumptions": ["identifier alphabet as in grammar.peg (ASCII letters, digits, underscore; dots excluded)"],
 }
 
+SPECS["C08"] = {
+    "level": "translation_validation",
+    "custom": "c08",
+    "groups": [],
+    "level_text": "Translation validation of the generators' topic construction against the specification topic = [prefix with its variables substituted, delimiter] Title(scope) delimiter operation. For every case of a catalogue (scope-name shapes Alpha / beta / gamma_delta / EPSILON x prefixes none, a.b, a.{user}, {user}.a, a.{user}.b.{kind}, {user} x -delim '.', '/' (thorough: ':' and '::')) the REAL compiler, built from /repo at check time, emits Go, Java, Dart, Python (plain, asyncio, tornado). Go: gose executes the generated publisher (NewXPublisher, PublishCreated, the Method/middleware plumbing) and subscriber (SubscribeCreated) symbolically down to harness transports, with variable values as symbolic strings of 0..2 arbitrary bytes, and z3 decides publisher topic == subscriber topic == specification. Java/Dart/Python: the emitted prefix/topic statements and the DELIMITER constant are parsed into a rope of literals and variables (unparseable output is inconclusive, never a pass) and z3's string theory decides rope == specification rope for ALL variable values (unbounded). Outside: scope/prefix/delimiter combinations beyond the catalogue (programs are enumerated, only run-time values are symbolic), operation names other than Created.",
+    "level_note": "Trusted: the extractor (60 lines of regular expressions per language, fails closed), z3 4.8.12 sequence theory, gose for the Go part; the specification rope is written in c08.py from the property statement and README.",
+    "bounds": {"quick": "2 delimiters x 12 scopes x (Go executed + 9 extracted publisher/subscriber sources)", "thorough": "4 delimiters x 24 scopes"},
+    "assumptions": ["strings.Title semantics for ASCII identifiers"],
+}
+
 OVERLAYS = {}
 
 HOOK_COMMITS = []
